@@ -17,7 +17,7 @@ for f in sorted(glob.glob(os.path.join(wdir, 'confirm*.log'))):
                 conf[key] = f'tests={m.group(3)} demo_with_patch_rc={m.group(4)} demo_without_patch_rc={m.group(5)}'
 head = subprocess.run(['git', '-C', '/repo', 'rev-parse', '--short', 'HEAD'], capture_output=True, text=True).stdout.strip()
 lock = open(os.path.join(wdir, 'repo.lock'), 'w')
-for d in sorted(glob.glob(os.path.join(wdir, 'C??', 'mutants', 'm?'))):
+for d in sorted(glob.glob(os.path.join(wdir, os.environ.get('ONLY', 'C??'), 'mutants', 'm?'))):
     pid = d.split('/')[-3]; mk = d.split('/')[-1]
     key = (pid, mk)
     if key not in conf:
